@@ -894,4 +894,85 @@ def parseComToks (ts : List Tok) : Option Com :=
 
 def parseCom (s : String) : Option Com := (lex s).bind parseComToks
 
+/-! ### ONE command object analysed more than once (the mutable `pre` / `post` lists of imperative/com.py)
+
+`ACom` is the object state: the program plus the `pre` and `post` list of every node.  `compute_wp` never
+clears `pre`: it APPENDS to it (`self.pre.append(..)`), resets `post`, prepends `[I & b]` to the `pre` of a
+loop body (`self.c.pre = [conj(inv, b)] + self.c.pre`) and returns `self.pre[0]`, which on a re-used object
+is the first element ever stored there, not the condition just computed. -/
+
+/-- a freshly built object (`Com.__init__`): every list empty -/
+def ACom.init : Com → ACom
+  | .skip => .skip [] []
+  | .assign x e => .assign [] [] x e
+  | .seq c1 c2 => .seq [] [] (ACom.init c1) (ACom.init c2)
+  | .cond b c1 c2 => .cond [] [] b (ACom.init c1) (ACom.init c2)
+  | .while b inv c => .while [] [] b inv (ACom.init c)
+
+/-- the program of an object -/
+def ACom.erase : ACom → Com
+  | .skip _ _ => .skip
+  | .assign _ _ x e => .assign x e
+  | .seq _ _ a1 a2 => .seq a1.erase a2.erase
+  | .cond _ _ b a1 a2 => .cond b a1.erase a2.erase
+  | .while _ _ b inv a => .while b inv a.erase
+
+/-- `obj.pre = l` (the caller's way to state the precondition: `l = [P]`) -/
+def ACom.setPre (l : List Expr) : ACom → ACom
+  | .skip _ q => .skip l q
+  | .assign _ q x e => .assign l q x e
+  | .seq _ q a1 a2 => .seq l q a1 a2
+  | .cond _ q b a1 a2 => .cond l q b a1 a2
+  | .while _ q b inv a => .while l q b inv a
+
+/-- `obj.pre = extra + obj.pre; obj.compute_wp(q)` on an object in ANY state (`extra = []` for the call
+itself, `[I & b]` for the body of a loop); the result is the new state, `.ret` of it the value returned. -/
+def reWpAux : List Expr → ACom → Expr → ACom
+  | ex, .skip pre _, q => .skip (ex ++ pre ++ [q]) [q]
+  | ex, .assign pre _ x e, q => .assign (ex ++ pre ++ [subst x e q]) [q] x e
+  | ex, .seq pre _ a1 a2, q =>
+    let a2' := reWpAux [] a2 q
+    let a1' := reWpAux [] a1 a2'.ret
+    .seq (ex ++ pre ++ [a1'.ret]) [q] a1' a2'
+  | ex, .cond pre _ b a1 a2, q =>
+    let a1' := reWpAux [] a1 q
+    let a2' := reWpAux [] a2 q
+    .cond (ex ++ pre ++ [.ite b a1'.ret a2'.ret]) [q] b a1' a2'
+  | ex, .while pre _ b inv a, q =>
+    let a' := reWpAux [conj inv b] a inv
+    .while (ex ++ pre ++ [inv]) [conj inv (neg b), q] b inv a'
+
+/-- `obj.compute_wp(q)` -/
+def reWp (a : ACom) (q : Expr) : ACom := reWpAux [] a q
+
+/-- the operations of a history on one object -/
+inductive Op where
+  | setPre (p : Expr)      -- obj.pre = [p]
+  | wp (q : Expr)          -- obj.compute_wp(q)
+  | vcs                    -- obj.get_vcs(vars) / get_lines(vars): reads only
+  | print                  -- obj.print_com(vars): reads only
+  deriving Repr, Inhabited
+
+def Op.readOnly : Op → Bool
+  | .vcs | .print => true
+  | _ => false
+
+def stepOp (a : ACom) : Op → ACom
+  | .setPre p => a.setPre [p]
+  | .wp q => reWp a q
+  | .vcs => a
+  | .print => a
+
+/-- the object after a history -/
+def runOps (a : ACom) (h : List Op) : ACom := h.foldl stepOp a
+
+/-- the argument of the last `obj.pre = [p]` of a history -/
+def lastPre (h : List Op) : Option Expr :=
+  h.foldl (fun acc o => match o with | .setPre p => some p | _ => acc) none
+
+/-- what `get_vcs` returns after each operation of a history (the observable trace) -/
+def vcsTrace : ACom → List Op → List (List Expr)
+  | _, [] => []
+  | a, o :: h => getVcs (stepOp a o) :: vcsTrace (stepOp a o) h
+
 end Holpy.C20
